@@ -11,13 +11,14 @@ def PC.late : PC → Bool
   | .walkItem _ | .queueLoop _ | .events | .fetched _ | .save => true
   | _ => false
 
+/-- pcs at which `_first_do` is still set although do() is past the entry of `_do_first_init` -/
 def PC.err : PC → Bool
-  | .errReset | .errSave => true
+  | .errReset | .errForget | .errSave | .seedSave => true
   | _ => false
 
 /-- pcs from which the walk is still ahead (or which never get to the event loop) -/
 def PC.preWalk : PC → Bool
-  | .idle | .firstInit | .walkItem _ | .errReset | .errSave => true
+  | .idle | .firstInit | .seedSave | .walkItem _ | .errReset | .errForget | .errSave => true
   | _ => false
 
 def PC.evLoop : PC → Bool
@@ -39,6 +40,11 @@ structure UpInv (s : St) (m : Mem) : Prop where
   u9 : m.rootOid = true → m.needWalk = true → m.stopping = false → m.pc.preWalk = true
   u10 : m.validated = true → m.rootOid = true → m.cursor = none → m.needWalk = true
   u11 : s.cfg ≠ .noRoot → m.rootPath = true ∧ (m.validated = true → m.rootOid = true)
+  u12 : m.pc = .seedSave → m.cursor = some (.int s.prov.cur)
+  -- the repaired code: whenever a walk is needed, that need is visible on disk
+  u13 : m.validated = true → m.rootOid = true → m.needWalk = true → s.store.walked = false ∨ m.cursor = none
+  u14 : m.pc = .errSave → m.rootOid = true → s.store.walked = false
+  u15 : m.pc = .seedSave → m.rootOid = true → m.needWalk = true
 
 structure Inv (s : St) : Prop where
   g1 : ∀ c i, s.store.cursor = some (.int c) → s.ghost.seed < i → i ≤ c → i ∈ s.store.log
@@ -53,8 +59,8 @@ theorem inv_user (s : St) (n : Nat) (h : Inv s) : Inv (apply s (.user n)) := by
   obtain ⟨g1, g2, g3, up⟩ := h
   refine ⟨g1, g2, by simp [apply]; omega, ?_⟩
   intro m hm
-  obtain ⟨u1, u2, u3a, u3b, u3c, u4, u5, u6, u7, u8, u9, u10, u11⟩ := up m hm
-  exact ⟨u1, u2, u3a, u3b, u3c, u4, u5, u6, u7, u8, u9, u10, u11⟩
+  obtain ⟨u1, u2, u3a, u3b, u3c, u4, u5, u6, u7, u8, u9, u10, u11, u12, u13, u14, u15⟩ := up m hm
+  exact ⟨u1, u2, u3a, u3b, u3c, u4, u5, u6, u7, u8, u9, u10, u11, u12, u13, u14, u15⟩
 
 
 theorem inv_start (s : St) (h : Inv s) : Inv (apply s .start) := by
@@ -68,6 +74,7 @@ theorem inv_start (s : St) (h : Inv s) : Inv (apply s .start) := by
     simp only [Option.some.injEq] at hm
     subst hm
     constructor <;> simp [validateRoot, newMem, PC.late, PC.err, PC.preWalk, PC.evLoop] <;> (repeat' split) <;> simp_all
+    all_goals (intro h; exact Or.symm h)
 
 
 theorem inv_stop (s : St) (h : Inv s) : Inv (apply s .stop) := by
@@ -81,15 +88,15 @@ theorem inv_setRoot (s : St) (h : Inv s) : Inv (apply s .setRoot) := by
   · exact ⟨g1, g2, g3, up⟩
   · refine ⟨g1, g2, g3, ?_⟩
     intro m hm
-    obtain ⟨u1, u2, u3a, u3b, u3c, u4, u5, u6, u7, u8, u9, u10, u11⟩ := up m hm
-    exact ⟨u1, u2, u3a, u3b, u3c, u4, u5, u6, u7, u8, u9, u10, u11⟩
+    obtain ⟨u1, u2, u3a, u3b, u3c, u4, u5, u6, u7, u8, u9, u10, u11, u12, u13, u14, u15⟩ := up m hm
+    exact ⟨u1, u2, u3a, u3b, u3c, u4, u5, u6, u7, u8, u9, u10, u11, u12, u13, u14, u15⟩
 
 theorem inv_expire (s : St) (d : Nat) (h : Inv s) : Inv (apply s (.expire d)) := by
   obtain ⟨g1, g2, g3, up⟩ := h
   refine ⟨g1, g2, by simp [apply]; omega, ?_⟩
   intro m hm
-  obtain ⟨u1, u2, u3a, u3b, u3c, u4, u5, u6, u7, u8, u9, u10, u11⟩ := up m hm
-  exact ⟨u1, u2, u3a, u3b, u3c, u4, u5, u6, u7, u8, u9, u10, u11⟩
+  obtain ⟨u1, u2, u3a, u3b, u3c, u4, u5, u6, u7, u8, u9, u10, u11, u12, u13, u14, u15⟩ := up m hm
+  exact ⟨u1, u2, u3a, u3b, u3c, u4, u5, u6, u7, u8, u9, u10, u11, u12, u13, u14, u15⟩
 
 theorem inv_shutdown (s : St) (h : Inv s) : Inv (apply s .shutdown) := by
   obtain ⟨g1, g2, g3, up⟩ := h
@@ -101,8 +108,8 @@ theorem inv_shutdown (s : St) (h : Inv s) : Inv (apply s .shutdown) := by
     intro m' hm'
     simp only [Option.some.injEq] at hm'
     subst hm'
-    obtain ⟨u1, u2, u3a, u3b, u3c, u4, u5, u6, u7, u8, u9, u10, u11⟩ := up m hm
-    refine ⟨u1, u2, u3a, u3b, u3c, ?_, u5, u6, u7, u8, by simp, u10, u11⟩
+    obtain ⟨u1, u2, u3a, u3b, u3c, u4, u5, u6, u7, u8, u9, u10, u11, u12, u13, u14, u15⟩ := up m hm
+    refine ⟨u1, u2, u3a, u3b, u3c, ?_, u5, u6, u7, u8, by simp, u10, u11, u12, u13, u14, u15⟩
     intro hf
     rcases u4 hf with h | h
     · exact Or.inl ⟨rfl, h.2⟩
@@ -121,13 +128,14 @@ theorem inv_down (s : St) (a : Act) (h : Inv s)
        · intro m hm; simp_all)
 
 
+set_option maxHeartbeats 1000000 in
 theorem inv_callDo (s : St) (h : Inv s) : Inv (apply s .callDo) := by
   obtain ⟨g1, g2, g3, up⟩ := h
   simp only [apply]
   split
   · exact ⟨g1, g2, g3, up⟩
   · rename_i m hm
-    obtain ⟨u1, u2, u3a, u3b, u3c, u4, u5, u6, u7, u8, u9, u10, u11⟩ := up m hm
+    obtain ⟨u1, u2, u3a, u3b, u3c, u4, u5, u6, u7, u8, u9, u10, u11, u12, u13, u14, u15⟩ := up m hm
     split
     · rename_i hidle
       obtain ⟨hpc, hst⟩ := hidle
@@ -149,6 +157,7 @@ theorem inv_callDo (s : St) (h : Inv s) : Inv (apply s .callDo) := by
           subst hm'
           constructor <;> simp [validateRoot, hv, PC.late, PC.err, PC.preWalk, PC.evLoop] at hval ⊢ <;>
             (repeat' split) <;> simp_all
+          all_goals (intro h; exact Or.symm h)
         · rename_i hval
           refine ⟨g1, g2, g3, ?_⟩
           intro m' hm'
@@ -165,7 +174,7 @@ theorem inv_busy (s : St) (h : Inv s) : Inv (apply s .busy) := by
   split
   · exact ⟨g1, g2, g3, up⟩
   · rename_i m hm
-    obtain ⟨u1, u2, u3a, u3b, u3c, u4, u5, u6, u7, u8, u9, u10, u11⟩ := up m hm
+    obtain ⟨u1, u2, u3a, u3b, u3c, u4, u5, u6, u7, u8, u9, u10, u11, u12, u13, u14, u15⟩ := up m hm
     split
     · rename_i hpc
       split
@@ -178,7 +187,8 @@ theorem inv_busy (s : St) (h : Inv s) : Inv (apply s .busy) := by
           subst hm'
           refine ⟨by simpa using u1, ?_, by simp [hpc, PC.late], by simp [hpc], by simp [hpc, PC.err], ?_,
             by simp [hpc], by simp [hpc, PC.evLoop], by simpa using u7, by simpa using u8,
-            by simp [hpc, PC.preWalk], by simpa using u10, by simpa using u11⟩
+            by simp [hpc, PC.preWalk], by simpa using u10, by simpa using u11, by simp [hpc], by simpa using u13,
+            by simp [hpc], by simp [hpc]⟩
           · intro hf
             obtain ⟨c, hc, hb, hcur⟩ := u2 hf
             exact ⟨c, hc, hb, by simp; omega⟩
@@ -204,7 +214,7 @@ theorem inv_forget (s : St) (h : Inv s) : Inv (apply s .forget) := by
   split
   · exact ⟨g1, g2, g3, up⟩
   · rename_i m hm
-    obtain ⟨u1, u2, u3a, u3b, u3c, u4, u5, u6, u7, u8, u9, u10, u11⟩ := up m hm
+    obtain ⟨u1, u2, u3a, u3b, u3c, u4, u5, u6, u7, u8, u9, u10, u11, u12, u13, u14, u15⟩ := up m hm
     split
     · rename_i hpc
       refine ⟨by simp, by simp, g3, ?_⟩
@@ -212,7 +222,8 @@ theorem inv_forget (s : St) (h : Inv s) : Inv (apply s .forget) := by
       simp only [Option.some.injEq] at hm'
       subst hm'
       refine ⟨fun hv => ⟨(u1 hv).1, rfl, (u1 hv).2.2⟩, by simp, by simp [hpc, PC.late], by simp [hpc], by simp [hpc, PC.err], by simp,
-        by simp [hpc], by simp [hpc, PC.evLoop], by simp, ?_, by simp [hpc, PC.preWalk], by simp, by simpa using u11⟩
+        by simp [hpc], by simp [hpc, PC.evLoop], by simp, ?_, by simp [hpc, PC.preWalk], by simp, by simpa using u11,
+        by simp [hpc], by simp, by simp [hpc], by simp [hpc]⟩
       intro _ c hc
       have hc' : m.cursor = some (.int c) := hc
       show c ≤ (match m.cursor.bind CVal.toInt? with
@@ -245,27 +256,32 @@ theorem accept_some {p : Prov} {v : CVal} {c : Int} (h : p.accept? v = some c) :
 theorem inv_step_firstInit (s : St) (m : Mem) (hm : s.mem = some m) (hpc : m.pc = .firstInit) (h : Inv s) :
     Inv (stepUp s m) := by
   obtain ⟨g1, g2, g3, up⟩ := h
-  obtain ⟨u1, u2, u3a, u3b, u3c, u4, u5, u6, u7, u8, u9, u10, u11⟩ := up m hm
+  obtain ⟨u1, u2, u3a, u3b, u3c, u4, u5, u6, u7, u8, u9, u10, u11, u12, u13, u14, u15⟩ := up m hm
   have hval : m.validated = true := u3b (by simp [hpc])
   cases hnw : (m.needWalk && m.rootOid) <;> cases hfd : m.firstDo
   all_goals simp only [stepUp, hpc, hfd, afterInit, hnw, if_true, if_false, Bool.false_eq_true]
   · refine ⟨g1, g2, g3, ?_⟩
     upgoal
     case u9 => intro h1 h2; simp [hnw h2] at h1
+    case u13 => intro h1 h2; simp [hnw h2] at h1
   ·
     cases hc : m.cursor with
     | none =>
       simp only
+      have hsn : s.store.cursor = none := by
+        rcases u7 hval with h | h
+        · exact h
+        · rw [h, hc]
       refine ⟨?_, g2, g3, ?_⟩
-      · intro c i hc hs hi
-        simp only [Option.some.injEq, CVal.int.injEq] at hc
-        simp only at hs
-        omega
+      · intro c i hc'
+        simp [hsn] at hc'
       · upgoal
         all_goals first
           | (intro i h1 h2; exfalso; omega)
+          | (intro h1 h2; rcases h2 with h2 | h2 <;> first | exact h2 | (simp [hnw h2] at h1))
           | (intro h1 h2; simp [hnw h2] at h1)
           | (intro h1; have := hnw (u10 h1); simp [h1] at this)
+          | (intro h1 _; exact u13 h1 hnw.1)
     | some v =>
       simp only
       cases hacc : s.prov.accept? v with
@@ -283,22 +299,32 @@ theorem inv_step_firstInit (s : St) (m : Mem) (hm : s.mem = some m) (hpc : m.pc 
         simp only
         refine ⟨g1, g2, g3, ?_⟩
         upgoal
+        all_goals first
+          | (intro i h1 h2; exfalso; omega)
+          | (intro h1 h2; rcases h2 with h2 | h2 <;> first | exact h2 | (simp [hnw h2] at h1))
+          | (intro h1 h2; simp [hnw h2] at h1)
+          | (intro h1; have := hnw (u10 h1); simp [h1] at this)
+          | (intro h1 _; exact u13 h1 hnw.1)
   · refine ⟨g1, g2, g3, ?_⟩
     upgoal
   ·
     cases hc : m.cursor with
     | none =>
       simp only
+      have hsn : s.store.cursor = none := by
+        rcases u7 hval with h | h
+        · exact h
+        · rw [h, hc]
       refine ⟨?_, g2, g3, ?_⟩
-      · intro c i hc hs hi
-        simp only [Option.some.injEq, CVal.int.injEq] at hc
-        simp only at hs
-        omega
+      · intro c i hc'
+        simp [hsn] at hc'
       · upgoal
         all_goals first
           | (intro i h1 h2; exfalso; omega)
+          | (intro h1 h2; rcases h2 with h2 | h2 <;> first | exact h2 | (simp [hnw h2] at h1))
           | (intro h1 h2; simp [hnw h2] at h1)
           | (intro h1; have := hnw (u10 h1); simp [h1] at this)
+          | (intro h1 _; exact u13 h1 hnw.1)
     | some v =>
       simp only
       cases hacc : s.prov.accept? v with
@@ -316,14 +342,21 @@ theorem inv_step_firstInit (s : St) (m : Mem) (hm : s.mem = some m) (hpc : m.pc 
         simp only
         refine ⟨g1, g2, g3, ?_⟩
         upgoal
+        all_goals first
+          | (intro i h1 h2; exfalso; omega)
+          | (intro h1 h2; rcases h2 with h2 | h2 <;> first | exact h2 | (simp [hnw h2] at h1))
+          | (intro h1 h2; simp [hnw h2] at h1)
+          | (intro h1; have := hnw (u10 h1); simp [h1] at this)
+          | (intro h1 _; exact u13 h1 hnw.1)
 
+set_option maxHeartbeats 2000000 in
 theorem inv_step (s : St) (h : Inv s) : Inv (apply s .step) := by
   obtain ⟨g1, g2, g3, up⟩ := h
   simp only [apply]
   split
   · exact ⟨g1, g2, g3, up⟩
   · rename_i m hm
-    obtain ⟨u1, u2, u3a, u3b, u3c, u4, u5, u6, u7, u8, u9, u10, u11⟩ := up m hm
+    obtain ⟨u1, u2, u3a, u3b, u3c, u4, u5, u6, u7, u8, u9, u10, u11, u12, u13, u14, u15⟩ := up m hm
     cases hpc : m.pc with
     | idle => simp only [stepUp, hpc]; exact ⟨g1, g2, g3, up⟩
     | events =>
@@ -376,6 +409,12 @@ theorem inv_step (s : St) (h : Inv s) : Inv (apply s .step) := by
               · simp [hpc] at h
         · upgoal
           case u2 => obtain ⟨c, hc, hb, hcur⟩ := u2; omega
+          case u13 =>
+            intro h1 h2
+            rcases u13 h1 h2 with h | h
+            · exact h
+            · obtain ⟨c, hc, _⟩ := u2
+              simp [hc] at h
       · refine ⟨g1, g2, g3, ?_⟩
         upgoal
     | queueLoop rest =>
@@ -455,6 +494,27 @@ theorem inv_step (s : St) (h : Inv s) : Inv (apply s .step) := by
           omega
         · upgoal
     | firstInit => exact inv_step_firstInit s m hm hpc ⟨g1, g2, g3, up⟩
+    | seedSave =>
+      have hc := u12 hpc
+      have hfd : m.firstDo = true := u3c (by simp [hpc, PC.err])
+      have hval : m.validated = true := u3b (by simp [hpc])
+      cases hnw : (m.needWalk && m.rootOid)
+      all_goals simp only [stepUp, hpc, afterInit, hnw, if_true, if_false, Bool.false_eq_true]
+      all_goals
+        refine ⟨?_, g2, g3, ?_⟩
+        · intro c i hc' hs hi
+          rw [hc] at hc'
+          simp only [Option.some.injEq, CVal.int.injEq] at hc'
+          simp only at hs
+          omega
+        · upgoal
+          all_goals first
+            | (intro i h1 h2; exfalso; omega)
+            | (intro h1; have := hnw (u15 h1); simp [h1] at this)
+    | errForget =>
+      simp only [stepUp, hpc]
+      refine ⟨g1, g2, g3, ?_⟩
+      upgoal
 
 
 theorem inv_apply (s : St) (a : Act) (h : Inv s) : Inv (apply s a) := by
@@ -498,15 +558,11 @@ instance (s : St) : Decidable (WalkPending s) := by
   · split <;> infer_instance
   · infer_instance
 
-/-- the window of the known finding: `need_walk` is set only in memory while storage holds both a walk marker
+/-- the window of the former finding (fixed): `need_walk` set only in memory while storage holds both a walk marker
     and an integer cursor -/
-def Window (s : St) : Prop :=
-  ∃ m, s.mem = some m ∧ m.needWalk = true ∧ s.store.walked = true ∧ ∃ c, s.store.cursor = some (.int c)
-
-/-- every `stop` of the sequence falls outside the window -/
-def StopsOutsideWindow : St → List Act → Prop
-  | _, [] => True
-  | s, a :: as => (a = .stop → ¬ Window s) ∧ StopsOutsideWindow (apply s a) as
+def FormerWindow (s : St) : Prop :=
+  ∃ m, s.mem = some m ∧ m.validated = true ∧ m.rootOid = true ∧ m.needWalk = true ∧ s.store.walked = true ∧
+    ∃ c, s.store.cursor = some (.int c)
 
 /-- the walk that is due has not been forgotten -/
 def NoLost (s : St) : Prop := s.ghost.walkDue = true → WalkPending s
@@ -533,7 +589,7 @@ theorem walkPending_up (s : St) (m : Mem) (hm : s.mem = some m) (hv : m.validate
 theorem nolost_step (s : St) (m : Mem) (hm : s.mem = some m) (h : Inv s) (hcfg : s.cfg ≠ .noRoot)
     (hn : NoLost s) : NoLost (stepUp s m) := by
   obtain ⟨g1, g2, g3, up⟩ := h
-  obtain ⟨u1, u2, u3a, u3b, u3c, u4, u5, u6, u7, u8, u9, u10, u11⟩ := up m hm
+  obtain ⟨u1, u2, u3a, u3b, u3c, u4, u5, u6, u7, u8, u9, u10, u11, u12, u13, u14, u15⟩ := up m hm
   have hro := (u11 hcfg).2
   cases hpc : m.pc with
   | idle => simp only [stepUp, hpc]; exact hn
@@ -622,6 +678,17 @@ theorem nolost_step (s : St) (m : Mem) (hm : s.mem = some m) (h : Inv s) (hcfg :
       · exact Or.inl h
       · simp [hfd] at h
     · simp only [NoLost, WalkPending, hval, if_true]; exact hn'
+  | seedSave =>
+    have hval : m.validated = true := u3b (by simp [hpc])
+    simp only [stepUp, hpc]
+    simp only [NoLost, WalkPending, hval, if_true]
+    intro _
+    exact Or.inl (u15 hpc (hro hval))
+  | errForget =>
+    have hval : m.validated = true := u3b (by simp [hpc])
+    have hn' := (walkPending_up s m hm hval).mp ∘ hn
+    simp only [stepUp, hpc]
+    simp only [NoLost, WalkPending, hval, if_true]; exact hn'
   | errReset =>
     have hval : m.validated = true := u3b (by simp [hpc])
     have hn' := (walkPending_up s m hm hval).mp ∘ hn
@@ -642,8 +709,8 @@ theorem validate_fields (p : Prov) (st : Store) (m : Mem) (hv : m.validated = fa
   simp only [validateRoot, hv, hrp]
   cases p.rootSet <;> cases m.rootOid <;> simp [hv]
 
-theorem nolost_apply (s : St) (a : Act) (h : Inv s) (hcfg : s.cfg ≠ .noRoot) (hn : NoLost s)
-    (hw : a = .stop → ¬ Window s) : NoLost (apply s a) := by
+theorem nolost_apply (s : St) (a : Act) (h : Inv s) (hcfg : s.cfg ≠ .noRoot) (hn : NoLost s) :
+    NoLost (apply s a) := by
   cases a with
   | user n => exact hn
   | expire d => exact hn
@@ -680,7 +747,6 @@ theorem nolost_apply (s : St) (a : Act) (h : Inv s) (hcfg : s.cfg ≠ .noRoot) (
       · simp only [hv']
         exact hp
   | stop =>
-    have hw := hw rfl
     simp only [apply, NoLost, WalkPending]
     intro hd
     have hp := hn hd
@@ -689,20 +755,15 @@ theorem nolost_apply (s : St) (a : Act) (h : Inv s) (hcfg : s.cfg ≠ .noRoot) (
     | none => simpa [hm] using hp
     | some m =>
       simp only [hm] at hp
-      obtain ⟨u1, u2, u3a, u3b, u3c, u4, u5, u6, u7, u8, u9, u10, u11⟩ := h.up m hm
+      obtain ⟨u1, u2, u3a, u3b, u3c, u4, u5, u6, u7, u8, u9, u10, u11, u12, u13, u14, u15⟩ := h.up m hm
       by_cases hv : m.validated = true
       · simp only [hv, if_true] at hp
         rcases hp with hp | hp
-        · cases hc : s.store.cursor with
-          | none => exact Or.inl rfl
-          | some v =>
-            cases v with
-            | bad => exact Or.inr (Or.inl rfl)
-            | int c =>
-              right; right
-              cases hwk : s.store.walked with
-              | false => rfl
-              | true => exact absurd ⟨m, hm, hp, hwk, c, hc⟩ hw
+        · rcases u13 hv ((u11 hcfg).2 hv) hp with h | h
+          · exact Or.inr (Or.inr h)
+          · rcases u7 hv with h7 | h7
+            · exact Or.inl h7
+            · exact Or.inl (h7.trans h)
         · rcases u7 hv with h7 | h7
           · exact Or.inl h7
           · exact Or.inr (Or.inl (h7.trans hp.2))
@@ -713,7 +774,7 @@ theorem nolost_apply (s : St) (a : Act) (h : Inv s) (hcfg : s.cfg ≠ .noRoot) (
     split
     · exact hn
     · rename_i m hm
-      obtain ⟨u1, u2, u3a, u3b, u3c, u4, u5, u6, u7, u8, u9, u10, u11⟩ := h.up m hm
+      obtain ⟨u1, u2, u3a, u3b, u3c, u4, u5, u6, u7, u8, u9, u10, u11, u12, u13, u14, u15⟩ := h.up m hm
       simp only [NoLost, WalkPending, hm] at hn
       split
       · by_cases hv : m.validated = true
@@ -854,7 +915,11 @@ theorem measure_step (s : St) (hni : s.pcIdle = false) : measure (apply s .step)
       simp only [stepUp, hpc]
       split <;> (simp only [measure, hm, hpc]; omega)
     | errReset => simp only [stepUp, hpc, measure, hm]; omega
+    | errForget => simp only [stepUp, hpc, measure, hm]; omega
     | errSave => simp only [stepUp, hpc, measure, hm]; omega
+    | seedSave =>
+      cases hnw : (m.needWalk && m.rootOid) <;>
+        simp only [stepUp, hpc, afterInit, hnw, measure, hm, Bool.false_eq_true, if_false, if_true] <;> omega
 
 /-- every do() returns -/
 theorem finish_idle (n : Nat) (s : St) (h : measure s ≤ n) : (finish n s).pcIdle = true := by
